@@ -271,4 +271,193 @@ theorem fmt_completes (cfg : Config) (s : State) (p : Nat) (pr : Prod) (l : Byte
   simp only [step, hp, hpen, hl]
   exact get_set_self hp
 
+/-! ### the payload as a reference into a buffer (`BState`) -/
+
+theorem lookup_cons_filter_self (l : List ((Nat × Nat) × Bytes)) (k : Nat × Nat) (v : Bytes) :
+    ((k, v) :: l.filter (·.1 != k)).lookup k = some v := by
+  simp [List.lookup]
+
+theorem lookup_filter_ne (k0 k : Nat × Nat) (h : k ≠ k0) : ∀ (l : List ((Nat × Nat) × Bytes)),
+    (l.filter (·.1 != k0)).lookup k = l.lookup k
+  | [] => rfl
+  | (k', v) :: l => by
+    by_cases hk : k' = k0
+    · subst hk
+      have hne : (k == k') = false := by simpa using h
+      simp [List.filter, List.lookup, hne, lookup_filter_ne k' k h l]
+    · have : ((k', v).1 != k0) = true := by simpa using hk
+      simp only [List.filter, this, List.lookup]
+      rw [lookup_filter_ne k0 k h l]
+
+theorem lookup_cons_filter_ne (l : List ((Nat × Nat) × Bytes)) (k0 k : Nat × Nat) (v : Bytes) (h : k ≠ k0) :
+    ((k0, v) :: l.filter (·.1 != k0)).lookup k = l.lookup k := by
+  have hne : (k == k0) = false := by simpa using h
+  simp only [List.lookup, hne]
+  exact lookup_filter_ne k0 k h l
+
+/-- the invariant of the buffer-level protocol under the policy of the code (a fresh buffer per call) -/
+structure BInv (cfg : Config) (b : BState) : Prop where
+  base : Inv cfg b.s
+  ev : ∀ e ∈ b.s.events, b.bufs.lookup (e.item.pid, e.item.idx) = some e.item.line
+  pend : ∀ (p : Nat) (pr : Prod) (x : Item), b.s.prods[p]? = some pr → pr.pending = some x →
+    b.bufs.lookup (x.pid, x.idx) = some x.line
+  sunk : b.sunk = b.s.writes.map (·.line)
+
+theorem binv_fmt (cfg : Config) (b : BState) (p : Nat) (h : BInv cfg b) : BInv cfg (stepB cfg .fresh b (.fmt p)) := by
+  have hbase := inv_fmt cfg b.s p h.base
+  cases hp : b.s.prods[p]? with
+  | none =>
+    have hs : step cfg b.s (.fmt p) = b.s := by simp [step, hp]
+    simp only [stepB, hs, hp, Option.bind_none]
+    exact ⟨h.base, h.ev, h.pend, h.sunk⟩
+  | some pr =>
+    cases hpen : pr.pending with
+    | some it =>
+      have hs : step cfg b.s (.fmt p) = b.s := by simp [step, hp, hpen]
+      simp only [stepB, hs, hp, Option.bind_some, hpen]
+      exact ⟨h.base, h.ev, h.pend, h.sunk⟩
+    | none =>
+      cases hl : cfg.line p pr.next with
+      | none =>
+        have hs : step cfg b.s (.fmt p) = b.s := by simp [step, hp, hpen, hl]
+        simp only [stepB, hs, hp, Option.bind_some, hpen]
+        exact ⟨h.base, h.ev, h.pend, h.sunk⟩
+      | some l =>
+        have hnew := fmt_completes cfg b.s p pr l hp hpen hl
+        have hev : (step cfg b.s (.fmt p)).events = b.s.events := by simp [step, hp, hpen, hl]
+        have hwr : (step cfg b.s (.fmt p)).writes = b.s.writes := by simp [step, hp, hpen, hl]
+        simp only [stepB, hp, Option.bind_some, hpen, hnew, bufKey]
+        refine ⟨hbase, ?_, ?_, by simp [hwr, h.sunk]⟩
+        · intro e he
+          rw [hev] at he
+          obtain ⟨pr0, h0, hlt⟩ := h.base.bound e he
+          have hne : (e.item.pid, e.item.idx) ≠ (p, pr.next) := by
+            intro heq
+            have h1 : e.item.pid = p := congrArg Prod.fst heq
+            have h2 : e.item.idx = pr.next := congrArg Prod.snd heq
+            rw [h1, hp] at h0; cases h0
+            simp [Prod.sent, hpen] at hlt; omega
+          rw [lookup_cons_filter_ne _ _ _ _ hne]
+          exact h.ev e he
+        · intro q prq x hq hx
+          by_cases hqp : q = p
+          · subst hqp
+            rw [hnew] at hq; cases hq
+            simp at hx; subst hx
+            exact lookup_cons_filter_self _ _ _
+          · have hq' : b.s.prods[q]? = some prq := by
+              rw [← step_other cfg b.s (.fmt p) q (by simp [Act.ofProd]; exact fun h => hqp h.symm)]; exact hq
+            obtain ⟨hxp, _, _⟩ := h.base.pend q prq x hq' hx
+            have hne : (x.pid, x.idx) ≠ (p, pr.next) := by
+              intro heq
+              have h1 : x.pid = p := congrArg Prod.fst heq
+              exact hqp (hxp.symm.trans h1)
+            rw [lookup_cons_filter_ne _ _ _ _ hne]
+            exact h.pend q prq x hq' hx
+
+
+theorem binv_send (cfg : Config) (b : BState) (p : Nat) (h : BInv cfg b) : BInv cfg (stepB cfg .fresh b (.send p)) := by
+  have hbase := inv_send cfg b.s p h.base
+  simp only [stepB]
+  cases hp : b.s.prods[p]? with
+  | none =>
+    have hs : step cfg b.s (.send p) = b.s := by simp [step, hp]
+    rw [hs]; exact ⟨h.base, h.ev, h.pend, h.sunk⟩
+  | some pr =>
+    cases hpen : pr.pending with
+    | none =>
+      have hs : step cfg b.s (.send p) = b.s := by simp [step, hp, hpen]
+      rw [hs]; exact ⟨h.base, h.ev, h.pend, h.sunk⟩
+    | some it =>
+      have hwr : (step cfg b.s (.send p)).writes = b.s.writes := by
+        simp only [step, hp, hpen]; split <;> rfl
+      have hev : ∀ e ∈ (step cfg b.s (.send p)).events, e ∈ b.s.events ∨ e.item = it := by
+        intro e he
+        simp only [step, hp, hpen] at he
+        split at he
+        · rcases List.mem_append.mp he with he | he
+          · exact Or.inl he
+          · simp at he; subst he; exact Or.inr rfl
+        · rcases List.mem_append.mp he with he | he
+          · exact Or.inl he
+          · simp at he; subst he; exact Or.inr rfl
+      refine ⟨hbase, ?_, ?_, by simp [hwr, h.sunk]⟩
+      · intro e he
+        rcases hev e he with he | he
+        · exact h.ev e he
+        · rw [he]; exact h.pend p pr it hp hpen
+      · intro q prq x hq hx
+        by_cases hqp : q = p
+        · subst hqp
+          rw [send_completes cfg b.s q pr it hp hpen] at hq
+          cases hq; simp at hx
+        · have hq' : b.s.prods[q]? = some prq := by
+            rw [← step_other cfg b.s (.send p) q (by simp [Act.ofProd]; exact fun h => hqp h.symm)]; exact hq
+          exact h.pend q prq x hq' hx
+
+theorem binv_recv (cfg : Config) (b : BState) (h : BInv cfg b) : BInv cfg (stepB cfg .fresh b .recv) := by
+  have hbase := inv_recv cfg b.s h.base
+  have hprods : (step cfg b.s .recv).prods = b.s.prods := by simp only [step]; split <;> rfl
+  have hev : (step cfg b.s .recv).events = b.s.events := by simp only [step]; split <;> rfl
+  have hwr : (step cfg b.s .recv).writes = b.s.writes := by simp only [step]; split <;> rfl
+  simp only [stepB]
+  exact ⟨hbase, by rw [hev]; exact h.ev, by rw [hprods]; exact h.pend, by simp [hwr, h.sunk]⟩
+
+theorem binv_finish (cfg : Config) (b : BState) (o : Outcome) (h : BInv cfg b) :
+    BInv cfg (stepB cfg .fresh b (.finish o)) := by
+  have hbase := inv_finish cfg b.s o h.base
+  have hprods : (step cfg b.s (.finish o)).prods = b.s.prods := by simp only [step]; split <;> rfl
+  have hev : (step cfg b.s (.finish o)).events = b.s.events := by simp only [step]; split <;> rfl
+  simp only [stepB]
+  cases hc : b.s.cons with
+  | idle =>
+    have hs : step cfg b.s (.finish o) = b.s := by simp [step, hc]
+    simp only [hs]; exact ⟨h.base, h.ev, h.pend, h.sunk⟩
+  | dead =>
+    have hs : step cfg b.s (.finish o) = b.s := by simp [step, hc]
+    simp only [hs]; exact ⟨h.base, h.ev, h.pend, h.sunk⟩
+  | writing x =>
+    have hwr : (step cfg b.s (.finish o)).writes = b.s.writes ++ [x] := by simp [step, hc]
+    -- the item in the consumer's hands was accepted, so its buffer holds its line
+    have hx : x ∈ accepted b.s := by
+      rw [← h.base.fifo, hc]; simp [Cons.items]
+    obtain ⟨e, he, hex⟩ := List.mem_map.mp hx
+    have he' : e ∈ b.s.events := (List.mem_filter.mp he).1
+    have hl := h.ev e he'
+    rw [hex] at hl
+    refine ⟨hbase, by rw [hev]; exact h.ev, by rw [hprods]; exact h.pend, ?_⟩
+    simp [hwr, h.sunk, bufKey, hl]
+
+theorem binv_run (cfg : Config) (sched : List Act) (b : BState) (h : BInv cfg b) : BInv cfg (runB cfg .fresh b sched) := by
+  induction sched generalizing b with
+  | nil => exact h
+  | cons a as ih =>
+    simp only [runB, List.foldl_cons]
+    refine ih _ ?_
+    cases a with
+    | fmt p => exact binv_fmt cfg b p h
+    | send p => exact binv_send cfg b p h
+    | recv => exact binv_recv cfg b h
+    | finish o => exact binv_finish cfg b o h
+
+theorem binv_init (cfg : Config) (n : Nat) : BInv cfg { s := init n } := by
+  refine ⟨inv_init cfg n, by simp [init], ?_, by simp [init]⟩
+  intro p pr x hp hx
+  simp only [init] at hp
+  rw [List.getElem?_replicate] at hp
+  split at hp
+  · cases hp; cases hx
+  · cases hp
+
+/-- the buffer-level run projects onto the protocol run -/
+theorem runB_s (cfg : Config) (pol : Policy) (sched : List Act) (b : BState) :
+    (runB cfg pol b sched).s = run cfg b.s sched := by
+  induction sched generalizing b with
+  | nil => rfl
+  | cons a as ih =>
+    simp only [runB, run, List.foldl_cons] at ih ⊢
+    rw [ih]
+    congr 1
+    cases a <;> simp only [stepB] <;> (try split) <;> rfl
+
 end TraceProto
